@@ -586,6 +586,10 @@ class C19(Check):
             for m in (s + b"\n", s + b"\r\n", s + b"\r", b"\n" + s, s + b"\t", s[:-1], s[:-11], s[:11], s + b"1", s + s[:11], b" " + s, s + b" ", s.lower(), s[1:], b"", s + b"\x00",
                       b"\"" + s + b"\"", s[:40] + b"\xff" + s[41:]):
                 add("json_addr_bad " + (m.hex() or "-"), "addr-text/length-or-foreign", costly=len(m) >= 95)
+        # a block of the base58 text re-spelt as value + 256^n (same residue; the last, short block can always be)
+        for t in addr_values[:9]:
+            for alt in A.block_respellings(A.blob_of(*addr_fields(t)))[-3:]:
+                add("json_addr_bad " + alt.hex(), "addr-text/block-overflow-respelling", costly=True)
         # other spellings of the SAME address that the crate can parse elsewhere (Address::from_hex) must not be accepted as
         # the JSON form: hex of the blob, 0x-prefixed, upper case
         for t in addr_values[:6]:
